@@ -21,7 +21,7 @@ SimStep ==
         ELSE IF kd = 7 THEN Once(c, "OnceWithBlock", h)
         ELSE IF kd = 8 THEN Once(c, "OnceWithComponent", g)
         ELSE IF kd = 9 /\ \E d \in CtxSet : mode[d] = "mw" THEN StylesheetRequest
-        ELSE IF kd = 11 /\ nonce[c] < MaxNonces THEN SetNonce(c)          \* WithNonce at a random point of the history
+        ELSE IF kd = 11 /\ c \in NonceCtxs /\ nonce[c] < MaxNonces THEN SetNonce(c)          \* WithNonce at a random point of the history
         ELSE ElementWithOnAttrs(c, S)
 SimNext == \/ /\ Len(hist) < HistLen
               /\ SimStep
